@@ -195,6 +195,86 @@ CLAIMS["C18"] = dict(
     technique="Coq proof over exact rationals (Qc) of the per-cell statistics + in-Coq correspondence with the real array cube + model-free Fraction oracle",
     design_ref="DESIGN.md 4/C18")
 
+CLAIMS["C02"] = dict(
+    category="proof",
+    text=("Theorems of Properties/C02.v over a model of ccube.count() that mirrors the ALGORITHM (Cube/Walk.v the _walk recursion, Region.v/Count.v: "
+          "zeros + corner N, one write per walked coordinate, marginal differencing over every axis summing over ALL indices incl. the not-yet-computed "
+          "common one, margins cut, isclose(count,0) -> missing; shape inference): C02_count (for well-formed dimensions over N >= 0 rows and any shape "
+          "covering the listed values and commons, EVERY cell - visited or reconstructed common cell, any number of dimensions - holds the number of rows "
+          "whose category on every dimension is the cell's coordinate, and is missing iff that number is 0), C02_cell_rows, C02_missing_iff_no_rows, "
+          "C02_formats_agree / C02_reports (NaN / (sentinel, False) / plain reports describe the same cells), C02_infer / C02_infer_covers "
+          "(inferred extent = 1 + max(listed values u {common}) and it covers the cube), C02_checker_evaluates_model (the staged table the checker "
+          "evaluates equals the functional model). Built on the generic lemma Cube/FillInv.v cube_region_spec (any commutative group, any row measure) "
+          "and Cube/Diff.v diff_all_correct (inclusion-exclusion for any number of axes). Tie W2 on every run: ~1 200 (quick) / 30 000 + all 11 664 "
+          "2-dim x 3-row x 3-category x common cubes (thorough) real ccube(dims, interacting_shape).count(return_missing_as) calls - 0-4 dimensions of 1-3 "
+          "axes, N 0..8, extents 1..4 and the 255/256/257/65535/65536/65537 boundaries, explicit/larger/inferred shapes, commons frequent/rare/absent, three "
+          "formats, plus cubes outside the theorem (IndexError / margin aliasing) - compared block by block inside Coq with the model and the specification."),
+    note=("Trusted: Coq kernel + vm_compute; NumPy slicing/sum/isclose on integer-valued float64 counts <= N are modelled as exact; extra axes are reduced to "
+          "one-axis sub-cubes by C13 (the tie slices with the real sliced()); cubes whose extent does not cover a value/common are outside the theorem; boxes "
+          "beyond 20 000 cells are compared through the right-hand side of C02_count with its hypotheses checked on the real dimensions. Closed under the global context."),
+    technique="Coq proof (walk specification + generic marginal-differencing theorem) over an algorithm-level model + in-Coq correspondence with the real count cube",
+    design_ref="DESIGN.md 4/C02")
+
+CLAIMS["C14"] = dict(
+    category="proof",
+    text=("Theorems C14_walk_spec (for every list of well-formed one-axis dimensions - any number, any commons, any data - the sequence of "
+          "(coordinates, row ids) the model of ccube._walk hands to its callbacks EQUALS, as a list, the comprehension of the property: "
+          "{(c, rows c) | c in prod(uncommon_d ++ [-1]) minus all -1, rows c <> []}), C14_delivered_iff, C14_exactly_once (NoDup), C14_complete, "
+          "C14_rows (increasing and exactly the matching row ids), C14_never_common (Properties/C14.v). The model mirrors _walk branch by branch "
+          "(None versus intersected-so-far, pruning of empty intersections, the marginal branch); the intersection kernel enters as inter_spec (C08). "
+          "Tie W2 on every run: 6 660 (quick) / 316 000 (thorough, incl. all dictionaries over 3 rows x 3 categories for 1-3 dims) cases; the real "
+          "ccube is observed through interactions(), walk(f) and walk([f, g]) (all three must agree) and compared inside Coq with the model (multiset) "
+          "and the specification (list)."),
+    note=("Trusted: Coq kernel + vm_compute; harness abstraction of real dimensions to literals; set_intersect_merge_np = inter_spec on increasing inputs (C08). "
+          "Closed under the global context."),
+    technique="Coq proof of the walk recursion against its set-comprehension specification + in-Coq correspondence with the real walk/interactions",
+    design_ref="DESIGN.md 4/C14")
+
+CLAIMS["C03"] = dict(
+    category="proof",
+    text=("Theorems of Properties/C03.v over exact rationals (Qc): C03_ffunc_direct (the model of the index cube's weighted count / valid_count / sum / "
+          "mean - initial regions and corner values, fill, marginal differencing, reduce; scalar / array / (values, validity) weights, NaN-marked or paired "
+          "facts, one or several columns, both policies - equals the textbook per-cell computation `direct` over the rows of each cell, for well-formed "
+          "dimensions and any covering shape), C03_stride_bijection + C03_flat_index_enumerates (the array cube's coordinate = mixed-radix flat index; "
+          "astype(mintype) does not wrap because prod(ext) fits), C03_xfunc_direct (the array cube model = direct), C03_hidden_values_irrelevant_ccube / "
+          "_xcube / C03_hidden_pair (values under a False validity never matter), C03_agree (index cube = array cube on the equivalent dense arrays = "
+          "direct group-by, same values and same missing cells). Uses cube_region_spec (C02) instantiated with the measures 1, w, w*fact, validity and "
+          "missing counters. Tie W2 on every run: ~5 000 (quick) real ccube AND xcube calls - 4 aggregates x fact forms x weight forms (zeros included) x "
+          "policies, dense arrays in every integer dtype incl. unsigned, explicit/inferred shape, extents whose product sits on 255/256/65535/65536, "
+          "hidden values NaN/inf/garbage, zero dimensions - compared inside Coq with the model; dyadic inputs exactly, a float stream within 1e-9 of the "
+          "grand total; an exact Fraction oracle judges every case without the model."),
+    note=("Trusted: Coq kernel + vm_compute; NumPy bincount/where/nansum/fancy indexing modelled; floating-point rounding outside the model (exact rationals; tolerance "
+          "stream judged by the oracle); negative weights and sub-1e-8 weight sums outside the property. Closed under the global context."),
+    technique="Coq proof over exact rationals of index-cube and array-cube aggregate models against the per-cell definition + in-Coq correspondence of both real cubes",
+    design_ref="DESIGN.md 4/C03")
+
+CLAIMS["C04"] = dict(
+    category="proof",
+    text=("Theorems of Properties/C04.v: C04_missing_rule_spec / C04_missing_rule_ccube / C04_missing_rule_xcube (a cell of any of the four aggregates, in "
+          "either cube model, is missing exactly when no row falls in it or the fact/weight values of its rows are missing - all of them when ignoring, "
+          "any of them otherwise - and, for a mean, when the valid weights sum to zero), C04_formats_agree / C04_formats_agree_cell (the NaN report, the "
+          "(sentinel, False) report for ANY sentinel and the plain-replacement report computed by the model describe the same missing set and identical "
+          "values elsewhere), C04_valid_count_plain0_shortcut (the documented shortcut is stated separately and excluded, as in the property). Tie W2: the "
+          "C03 generator with every call run under six return_missing_as settings (NaN, (0|7|-3|2.5, False), plain 0) on BOTH real cubes; the real outputs "
+          "are compared with each other, with the model inside Coq and with the exact oracle (~5 400 evaluations quick)."),
+    note=("Trusted as C03. The plain-replacement format cannot distinguish a missing cell from a genuine replacement value; the comparison is made on the cells where "
+          "the value differs from the replacement, as the property's wording implies. Closed under the global context."),
+    technique="Coq proof of the missing-cell rule and report-format agreement over the aggregate models + in-Coq correspondence under all report formats",
+    design_ref="DESIGN.md 4/C04")
+
+CLAIMS["C05"] = dict(
+    category="proof",
+    text=("Theorems C05_shift_common and C05_shift_common_auto (Properties/C05.v): for every well-formed index dimension d of a cube, every value v "
+          "(frequent, rare, absent) and every aggregate/fact/weight/policy of C03, replacing d by shift_common(v) d - or by the library's own "
+          "re-normalisation - leaves the model cube unchanged, cell for cell; proved through the bridge dim_of_iindex (IIndex model -> cube dimension), "
+          "shift_common_dense (C06: re-encoding does not change the dense content) and C03_ffunc_direct (the cube is a function of the dense content). "
+          "Tie W2 on every run: ~300 (quick) real cubes with EVERY dimension re-encoded to every v in 0..extent-1 and to a value outside the data "
+          "(explicit shape when v < extent, inferred otherwise; extra cells must be missing), also after shift_common(), also dimensions with an extra "
+          "(N, C) axis block by block: ~18 000 evaluations, every output cell compared with the unshifted cube and, inside Coq, with the model."),
+    note=("Trusted as C03 and C06. Closed under the global context."),
+    technique="Coq corollary of the dense-refinement of shift_common and the aggregate theorem + correspondence over all re-encodings on the real cubes",
+    design_ref="DESIGN.md 4/C05")
+
 NOT_YET = "check not built yet in this revision (planned: see DESIGN.md section 4)"
 
 
